@@ -135,6 +135,7 @@ class Engine:
         self.events = []  # generic event log for rules (appended by contracts)
         self.partition_filter = None  # callable(frame, block index, kind, detail) -> bool
         self.inline_filter = None  # callable(path) -> bool: may this local callee be inlined
+        self.on_closure = None  # hook(eng, st, frame, closure aggregate rvalue, captured operand values)
         self.on_agg = None  # hook(eng, st, frame, aggregate rvalue, operand values): observe ADT constructions
         self.on_call = None  # hook(eng, st, frame, f, args, site) -> outcomes or None
         self.trace = False
@@ -607,6 +608,8 @@ class Engine:
                 self.hv += 1
                 envloc = "obj:env%d" % self.hv
                 st.locs[envloc] = Struct(None, tuple(ops))
+                if self.on_closure is not None:
+                    self.on_closure(self, st, fr, rv, ops)
                 return Fn(frozenset([("closure", rv["def"], envloc, tuple(sorted(fr.sub.items())))]))
             return ("ANY", "agg")
         if k == "repeat":
